@@ -503,6 +503,204 @@ Section MuxProofs.
       apply (prepared_block_reexecutes (n_cfg S n) (n_cfg S n)); assumption.
     - inversion Hp; subst n1. cbn in Hr. discriminate.
   Qed.
+
+  (* ---- stale caches left by failed rounds ---- *)
+  Definition collision : Prop := exists b1 b2 : block, b1 <> b2 /\ b_hash b1 = b_hash b2.
+
+  Lemma bytes_eq_dec (a b : bytes) : {a = b} + {a <> b}.
+  Proof. apply list_eq_dec. apply N.eq_dec. Qed.
+  Lemma block_eq_dec (b1 b2 : block) : {b1 = b2} + {b1 <> b2}.
+  Proof.
+    assert (Hh : forall x y : header, {x = y} + {x <> y}) by (decide equality; try apply bytes_eq_dec; apply N.eq_dec).
+    assert (Hv : forall x y : vote, {x = y} + {x <> y}) by (decide equality; try apply bytes_eq_dec; try apply N.eq_dec; apply Bool.bool_dec).
+    assert (Hm : forall x y : misb, {x = y} + {x <> y}) by (decide equality; try apply bytes_eq_dec; apply N.eq_dec).
+    decide equality; try apply bytes_eq_dec; try (apply list_eq_dec; assumption).
+    apply list_eq_dec. apply bytes_eq_dec.
+  Qed.
+
+  Lemma exec_block_hash_irrelevant cfg apps pg s hd txs cm ms h1 h2 :
+    exec_block S cfg apps pg s (mkBlock hd txs cm ms h1) = exec_block S cfg apps pg s (mkBlock hd txs cm ms h2).
+  Proof. reflexivity. Qed.
+
+  (* The cache holds the results of SOME block b0 executed on the committed state; if it
+     was prepared here, b0 has the remembered header/txs/misbehavior and the commit info
+     given to PrepareProposal; if it carries a hash, it is b0's hash. *)
+  Definition cache_inv (n : node) : Prop :=
+    forall c, n_cache S n = Some c ->
+      p_executed (pc_id S c) = true /\
+      exists b0,
+        exec_block S (n_cfg S n) (dispatch S n) false (n_committed S n) b0 = Some (pc_tree S c, pc_out S c) /\
+        (p_hash (pc_id S c) = [] \/ p_hash (pc_id S c) = b_hash b0) /\
+        (forall hd, p_header (pc_id S c) = Some hd ->
+           b_header b0 = hd /\ b_txs b0 = p_txs (pc_id S c) /\ b_misb b0 = p_misb (pc_id S c) /\ b_commit b0 = pc_commit S c).
+
+  Definition same_base (n n' : node) : Prop :=
+    n_committed S n' = n_committed S n /\ n_cfg S n' = n_cfg S n /\ n_apps S n' = n_apps S n.
+
+  (* the named environment hypothesis, at a ProcessProposal step *)
+  Definition commit_as_prepared (n : node) (b : block) : Prop :=
+    forall c, n_cache S n = Some c ->
+      process_reuses (Some (pc_id S c)) (b_header b) (b_txs b) (b_misb b) = true -> b_commit b = pc_commit S c.
+
+  Lemma prepare_inv n key hd cands cm ms :
+    meta_wf key (h_proposer hd) ->
+    cache_inv (fst (prepare S n key hd cands cm ms)) /\ same_base n (fst (prepare S n key hd cands cm ms)).
+  Proof.
+    intros Hm. unfold prepare.
+    destruct (exec_block S (n_cfg S n) (dispatch S n) true (n_committed S n) _) as [[s' o]|] eqn:Ep; cbn [fst].
+    - split; [|repeat split]. intros c Hc. cbn [n_cache] in Hc. inversion Hc; subst c; clear Hc.
+      cbn [pc_id p_executed p_hash p_header p_txs p_misb pc_commit pc_tree pc_out]. split; [reflexivity|].
+      exists (mkBlock hd (cands ++ [sg_meta_tx S key (sg_root S s') (o_events_root S o)]) cm ms []).
+      split; [|split; [left; reflexivity|]].
+      + unfold dispatch. cbn [n_apps n_cfg n_committed].
+        apply (prepared_block_reexecutes (n_cfg S n) (n_cfg S n)); assumption.
+      + intros hd' Hh. inversion Hh; subst. cbn. auto.
+    - split; [|repeat split]. intros c Hc. discriminate.
+  Qed.
+
+  Lemma process_proposal_inv n b n' :
+    cache_inv n -> commit_as_prepared n b -> process_proposal S n b = Some n' ->
+    cache_inv n' /\ same_base n n' /\
+    exists c, n_cache S n' = Some c /\ p_hash (pc_id S c) = b_hash b /\
+      exec_block S (n_cfg S n) (dispatch S n) false (n_committed S n) b = Some (pc_tree S c, pc_out S c).
+  Proof.
+    intros Hinv Hcm. unfold process_proposal, snapshot.
+    destruct (n_cache S n) as [c|] eqn:Ec; cbn [option_map].
+    - destruct (process_reuses (Some (pc_id S c)) (b_header b) (b_txs b) (b_misb b)) eqn:Er.
+      + intros H; inversion H; subst n'; clear H.
+        destruct (Hinv c Ec) as (Hex & b0 & He & Hh & Hhd).
+        pose proof (Hcm c Ec Er) as Hcommit.
+        cbn [process_reuses] in Er. apply andb_true_iff in Er as [_ Ei].
+        apply is_equal_sound in Ei as (Hph & Hpt & Hpm).
+        destruct (Hhd _ Hph) as (H1 & H2 & H3 & H4).
+        assert (Eb : exec_block S (n_cfg S n) (dispatch S n) false (n_committed S n) b = Some (pc_tree S c, pc_out S c)).
+        { rewrite <- He. destruct b as [bh bt bc bm bhash], b0 as [h0 t0 c0 m0 hash0].
+          cbn [b_header b_txs b_commit b_misb] in *. subst. reflexivity. }
+        split; [|split; [repeat split|]].
+        * intros c' Hc'. cbn [n_cache] in Hc'. inversion Hc'; subst c'; clear Hc'.
+          cbn [set_hash pc_id p_executed p_hash p_header p_txs p_misb pc_commit pc_tree pc_out].
+          split; [exact Hex|]. exists b. split; [exact Eb|]. split; [right; reflexivity|].
+          intros hd' Hh'. rewrite Hph in Hh'. inversion Hh'; subst hd'. auto.
+        * eexists. split; [reflexivity|]. cbn [set_hash pc_id p_hash pc_tree pc_out]. split; [reflexivity|exact Eb].
+      + destruct (exec_block S (n_cfg S n) (dispatch S n) false (n_committed S n) b) as [[s' o]|] eqn:Ee; [|discriminate].
+        intros H; inversion H; subst n'; clear H.
+        split; [|split; [repeat split|]].
+        * intros c' Hc'. cbn [n_cache] in Hc'. inversion Hc'; subst c'; clear Hc'.
+          cbn [pc_id p_executed p_hash p_header pc_tree pc_out]. split; [reflexivity|].
+          exists b. split; [first [exact Ee|reflexivity]|]. split; [right; reflexivity|]. intros hd' Hh'. discriminate.
+        * eexists. split; [reflexivity|]. cbn. split; [reflexivity|first [exact Ee|reflexivity]].
+    - cbn [process_reuses].
+      destruct (exec_block S (n_cfg S n) (dispatch S n) false (n_committed S n) b) as [[s' o]|] eqn:Ee; [|discriminate].
+      intros H; inversion H; subst n'; clear H.
+      split; [|split; [repeat split|]].
+      + intros c' Hc'. cbn [n_cache] in Hc'. inversion Hc'; subst c'; clear Hc'.
+        cbn [pc_id p_executed p_hash p_header pc_tree pc_out]. split; [reflexivity|].
+        exists b. split; [first [exact Ee|reflexivity]|]. split; [right; reflexivity|]. intros hd' Hh'. discriminate.
+      + eexists. split; [reflexivity|]. cbn. split; [reflexivity|first [exact Ee|reflexivity]].
+  Qed.
+
+  Lemma process_proposal_reject n b :
+    cache_inv n -> commit_as_prepared n b -> process_proposal S n b = None ->
+    exec_block S (n_cfg S n) (dispatch S n) false (n_committed S n) b = None.
+  Proof.
+    intros Hinv Hcm. unfold process_proposal, snapshot.
+    destruct (n_cache S n) as [c|] eqn:Ec; cbn [option_map].
+    - destruct (process_reuses (Some (pc_id S c)) _ _ _) eqn:Er; [discriminate|].
+      destruct (exec_block S _ _ false _ b) as [[s' o]|]; [discriminate|reflexivity].
+    - cbn [process_reuses]. destruct (exec_block S _ _ false _ b) as [[s' o]|]; [discriminate|reflexivity].
+  Qed.
+
+  Lemma finalize_inv n b :
+    cache_inv n -> b_hash b <> [] ->
+    finalize S n b = reference (n_cfg S n) (n_apps S n) (n_committed S n) b \/ collision.
+  Proof.
+    intros Hinv Hne. unfold finalize, snapshot, reference.
+    destruct (n_cache S n) as [c|] eqn:Ec; cbn [option_map].
+    - destruct (begin_reuses (Some (pc_id S c)) (b_hash b)) eqn:Er.
+      + cbn [begin_reuses] in Er. apply andb_true_iff in Er as [Eh _]. apply bytes_eqb_eq in Eh.
+        destruct (Hinv c Ec) as (_ & b0 & He & Hh & _).
+        destruct Hh as [Hh|Hh]; [congruence|].
+        destruct (block_eq_dec b0 b) as [->|Hd].
+        * left. unfold dispatch in He. rewrite He. reflexivity.
+        * right. exists b0, b. split; [exact Hd|congruence].
+      + left. unfold dispatch. destruct (exec_block S _ _ false _ b) as [[s' o]|]; reflexivity.
+    - left. cbn [begin_reuses]. unfold dispatch. destruct (exec_block S _ _ false _ b) as [[s' o]|]; reflexivity.
+  Qed.
+
+  Fixpoint stale_ok (n : node) (sts : list stale) : Prop :=
+    match sts with
+    | [] => True
+    | st :: r =>
+      match st with
+      | StalePrepared key hd _ _ _ => meta_wf key (h_proposer hd)
+      | StaleProcessed b' => commit_as_prepared n b'
+      end /\ stale_ok (apply_stale S n st) r
+    end.
+
+  Lemma apply_stale_inv n st :
+    cache_inv n ->
+    match st with
+    | StalePrepared key hd _ _ _ => meta_wf key (h_proposer hd)
+    | StaleProcessed b' => commit_as_prepared n b'
+    end ->
+    cache_inv (apply_stale S n st) /\ same_base n (apply_stale S n st).
+  Proof.
+    intros Hinv Hok. destruct st as [key hd cands cm ms|b']; cbn [apply_stale].
+    - apply prepare_inv. exact Hok.
+    - destruct (process_proposal S n b') as [n'|] eqn:Ep.
+      + destruct (process_proposal_inv n b' n' Hinv Hok Ep) as (H1 & H2 & _). split; assumption.
+      + split; [intros c Hc; discriminate|repeat split].
+  Qed.
+
+  Lemma stale_rounds_inv sts : forall n,
+    cache_inv n -> stale_ok n sts ->
+    cache_inv (fold_left (apply_stale S) sts n) /\ same_base n (fold_left (apply_stale S) sts n).
+  Proof.
+    induction sts as [|st r IH]; intros n Hinv Hok; cbn [fold_left].
+    - split; [exact Hinv|repeat split].
+    - cbn [stale_ok] in Hok. destruct Hok as [Hst Hr].
+      destruct (apply_stale_inv n st Hinv Hst) as [Hinv' (Ha & Hb & Hc)].
+      destruct (IH _ Hinv' Hr) as [Hi (Ha' & Hb' & Hc')].
+      split; [exact Hi|]. unfold same_base. rewrite Ha', Hb', Hc'. auto.
+  Qed.
+
+  Lemma run_path_cache_irrelevant p n b :
+    match p with ProcessProposal _ | PlainReplay _ => False | _ => True end ->
+    run_path S p n b = run_path S p (mkNode S (n_committed S n) None (n_cfg S n) (n_apps S n)) b.
+  Proof. destruct p; cbn [run_path]; intros H; try contradiction; reflexivity. Qed.
+
+  (* Whatever failed rounds came before (own proposals prepared, other proposals
+     processed), every path still computes the reference result -- given the named
+     commit-info hypothesis at each reuse, and unless two different blocks share a hash. *)
+  Theorem stale_rounds_harmless base n sts p b :
+    n_cache S n = None -> stale_ok n sts -> path_ok base b p -> b_hash b <> [] ->
+    commit_as_prepared (fold_left (apply_stale S) sts n) b ->
+    run_path S p (fold_left (apply_stale S) sts n) b
+      = reference (path_cfg p n) (path_regs p n) (n_committed S n) b \/ collision.
+  Proof.
+    intros Hc Hst Hok Hne Hcm.
+    assert (Hinv0 : cache_inv n) by (intros c Hc'; congruence).
+    destruct (stale_rounds_inv sts n Hinv0 Hst) as [Hinv (Ha & Hb & Hcc)].
+    set (m := fold_left (apply_stale S) sts n) in *.
+    destruct p as [key cands| | |cfg regs|cfg regs].
+    - left. rewrite run_path_cache_irrelevant by exact I.
+      rewrite (path_reference (ProposeCached S key cands) (mkNode S (n_committed S m) None (n_cfg S m) (n_apps S m)) b base eq_refl Hok).
+      cbn [path_cfg path_regs n_cfg n_apps n_committed]. rewrite Ha, Hb, Hcc. reflexivity.
+    - cbn [run_path path_cfg path_regs]. rewrite <- Ha, <- Hb, <- Hcc.
+      destruct (process_proposal S m b) as [m'|] eqn:Ep.
+      + destruct (process_proposal_inv m b m' Hinv Hcm Ep) as (Hinv' & (Ha' & Hb' & Hc') & c & Hcache & Hhash & Hex).
+        left. unfold finalize, snapshot, reference. rewrite Hcache. cbn [option_map begin_reuses].
+        destruct (Hinv' c Hcache) as (Hexd & _). rewrite Hhash, bytes_eqb_refl, Hexd. cbn [andb].
+        unfold dispatch in Hex. rewrite Hex. rewrite Hb', Hc'. reflexivity.
+      + left. apply (process_proposal_reject m b Hinv Hcm) in Ep. unfold reference. unfold dispatch in Ep. rewrite Ep. reflexivity.
+    - cbn [run_path path_cfg path_regs]. rewrite <- Ha, <- Hb, <- Hcc. apply finalize_inv; assumption.
+    - left. rewrite run_path_cache_irrelevant by exact I.
+      rewrite (path_reference (RestartThenReplay S cfg regs) (mkNode S (n_committed S m) None (n_cfg S m) (n_apps S m)) b base eq_refl Hok).
+      cbn [path_cfg path_regs n_cfg n_apps n_committed]. rewrite Ha. reflexivity.
+    - left. rewrite run_path_cache_irrelevant by exact I.
+      rewrite (path_reference (RestartThenProcess S cfg regs) (mkNode S (n_committed S m) None (n_cfg S m) (n_apps S m)) b base eq_refl Hok).
+      cbn [path_cfg path_regs n_cfg n_apps n_committed]. rewrite Ha. reflexivity.
+  Qed.
 End MuxProofs.
 
 (* ------------------------------------------------------------------ *)
@@ -636,3 +834,24 @@ Example toy_history_agrees :
   observe toy (run toy toy_n1 toy_ops1) = observe toy (run toy toy_n2 toy_ops2) /\
   option_map (fun x => length (snd x)) (observe toy (run toy toy_n1 toy_ops1)) = Some 2%nat.
 Proof. vm_compute. split; reflexivity. Qed.
+
+(* Non-vacuity of [stale_rounds_harmless]: a failed own round and a failed foreign round
+   precede the block; hypotheses hold and the left disjunct is what happens. *)
+Definition toy_stale : list stale :=
+  [StalePrepared [42] toy_hd [[5; 5]] toy_votes [];
+   StaleProcessed (mkBlock toy_hd toy_txs toy_votes [] [7; 7; 7])].
+Example toy_stale_hypotheses :
+  stale_ok toy toy_n1 toy_stale /\ b_hash toy_block <> [] /\
+  commit_as_prepared toy (fold_left (apply_stale toy) toy_stale toy_n1) toy_block /\
+  toy_obs (run_path toy (PlainReplay toy) (fold_left (apply_stale toy) toy_stale toy_n1) toy_block)
+  = toy_obs (run_path toy (PlainReplay toy) toy_n1 toy_block) /\
+  toy_obs (run_path toy (ProcessProposal toy) (fold_left (apply_stale toy) [StalePrepared [42] toy_hd [[5; 5]] toy_votes []] toy_n1) toy_block)
+  = toy_obs (run_path toy (PlainReplay toy) toy_n1 toy_block).
+Proof.
+  split.
+  { cbn [stale_ok toy_stale]. split; [apply toy_meta_wf|]. split; [|exact I].
+    intros c Hc Hr. vm_compute in Hc. try discriminate. inversion Hc; subst c. vm_compute in Hr. discriminate. }
+  split; [discriminate|]. split.
+  { intros c Hc Hr. vm_compute in Hc. try discriminate. inversion Hc; subst c. vm_compute in Hr. discriminate. }
+  split; vm_compute; reflexivity.
+Qed.
